@@ -277,7 +277,7 @@ def classify(res, r, asm, lines):
         for sp in d.get("spans", []):
             if sp.get("is_primary") and prim is None:
                 prim = sp
-            if sp.get("label") and ("failed this" in sp["label"] or "failed precondition" in sp["label"]):
+            if sp.get("label") and ("failed this" in sp["label"] or "failed precondition" in sp["label"]) and sp.get("file_name", "").endswith(res.name + ".rs"):
                 label = sp
         if prim is None:
             undecided.append(msg)
